@@ -17,10 +17,13 @@ Abstractions (DESIGN §4, §6/C12):
 * external calls are parameters: `final : Option Nat` (`getRecentFinalBlock`, `none` = error),
   `head : Option Nat` (`getHeadBlock`), `resolver : ResolverAnswer` (the answer `resolveCursor` gives
   for the request's cursor).
-* modules: what the functions read of a *validated tier-1 request* (the output module is a mapper,
-  `Request.Validate`): the raw `InitialBlock` of the stores the output module depends on (module
-  order) and the output module's raw `InitialBlock`.  In the harness' graphs these are all the used
-  non-index modules, so `computeLowestInitBlock` is the minimum over both.
+* modules: what the functions read: the raw `InitialBlock` of the stores the output module depends on
+  (module order), the output module's raw `InitialBlock` and its kind.  `Request.Validate` only lets a
+  mapper through on the public tier-1 endpoint, but `BuildRequestDetails`, `NewOutputModuleGraph`,
+  `BuildTier1RequestPlan` and `TestBlocks` accept an output module of kind store; it then counts among
+  the required stores (`StoresDownTo` includes the module itself, `computeLowestStoresInitBlock` runs
+  over all used modules, stage 0 ends in a store layer).  In the harness' graphs the stores and the
+  output module are all the used non-index modules, so `computeLowestInitBlock` is the minimum over both.
 * `segmentSize = 0` (a Go division-by-zero panic) is outside the model: every theorem has `0 < seg`
   and the generator never produces it.
 -/
@@ -119,9 +122,14 @@ deriving DecidableEq, Repr, Inhabited
 /-! ### modules / exec.Graph -/
 
 structure Mods where
-  stores : List Nat   -- raw `InitialBlock` of the stores the output module depends on, module order
-  out    : Nat        -- raw `InitialBlock` of the output module (a mapper)
+  stores     : List Nat   -- raw `InitialBlock` of the stores the output module depends on, module order
+  out        : Nat        -- raw `InitialBlock` of the output module
+  outIsStore : Bool       -- the output module is itself a store (else a mapper)
 deriving Repr, Inhabited
+
+/-- the stores among the used modules = `graph.StoresDownTo(outputModule)`: the ancestor stores and, when it
+is a store, the output module itself -/
+def Mods.reqStores (m : Mods) : List Nat := if m.outIsStore then m.stores ++ [m.out] else m.stores
 
 /-- `computeGraph`: `modulesInitBlocks[mod]` (0 means "first streamable block") -/
 def mapInit (fsb raw : Nat) : Nat := if raw = 0 then fsb else raw
@@ -147,12 +155,12 @@ def Mods.lowestInitBlock (fsb : Nat) (m : Mods) : Nat :=
 
 /-- `computeLowestStoresInitBlock`: `none` = `nil` (no store) -/
 def Mods.lowestStoresInitBlock (fsb : Nat) (m : Mods) : Option Nat :=
-  match lowestOf m.stores with
+  match lowestOf m.reqStores with
   | none => none
   | some l => some (if l < fsb then fsb else l)
 
 /-- `execGraph.StagedUsedModules()[0].LastLayer().IsStoreLayer()` for these graphs -/
-def Mods.scheduleStores (m : Mods) : Bool := !m.stores.isEmpty
+def Mods.scheduleStores (m : Mods) : Bool := !m.reqStores.isEmpty
 
 /-- `ValidateRequestStartBlock`: compares with the *raw* initial block of the output module -/
 def Mods.validateRequestStartBlock (m : Mods) (start : Nat) : Except Err Unit :=
@@ -303,7 +311,7 @@ deriving Repr, Inhabited
 
 def buildRequestDetails (env : Env) (m : Mods) (req : Request) : Except Err (Details × Option Undo) := do
   let r ← resolveStartBlockNum env req
-  let stateRequiredAt := reprocStateRequired r.start m.stores
+  let stateRequiredAt := reprocStateRequired r.start m.reqStores
   let ph := computeLinearHandoffP req.production r.start req.stop env.final stateRequiredAt env.seg
   let handoff ← computeLinearHandoff req.production r.start req.stop env.final stateRequiredAt env.seg
   let gate := if r.start > handoff then r.start else handoff
